@@ -10,7 +10,7 @@ class P(vlib.Prop):
             "api stage: synthetic signed repositories for 1-3 architectures (harness/synthrepo; versions present on some architectures only, "
             "virtuals requested by provided name, providers differing per architecture, tagged repositories with pinned requests, operators, "
             "duplicates; corpus: every finding's replay incl. C09-F6 member-excluded-by-conflict-entry-of-member) through build.NewMultiArch/BuildPackageLists and build.LockImageConfiguration (3-4 runs each), then every emitted lock "
-            "resolved again; cli stage: `apko lock` (lock.json entries judged against the package files: ranges, sha1/sha256 recomputed over the "
+            "resolved again (each per-architecture relock also by Model/Resolver.v: the ORDERED install list must equal the model's, which is a function of its inputs since fix c03e0c0); cli stage: `apko lock` (lock.json entries judged against the package files: ranges, sha1/sha256 recomputed over the "
             "recorded ranges) and `apko build` with and without --lockfile (installed database and image manifest), including a repository that "
             "publishes a newer version after locking. A case is non-trivial when it has >= 2 architectures and a non-empty request list; "
             "distinct = distinct case terms.")
